@@ -194,10 +194,11 @@ Proof.
 Qed.
 
 Lemma stmt_create_stores : forall c s r,
+  c_keep c = false ->
   s_err s = [] -> existsb m_nil (s_recs s) = false -> NoDup (map m_tag (s_recs s)) -> In r (s_recs s) ->
   In (c_table c, m_tag r, m_val r) (s_tbl (stmt_create c s)).
 Proof.
-  intros c s r E NN ND H. unfold stmt_create. rewrite E. cbn [is_nil negb].
+  intros c s r KP E NN ND H. unfold stmt_create. rewrite E, KP. cbn [is_nil negb andb].
   destruct (s_recs s) as [|x l] eqn:R; [contradiction|]. rewrite NN.
   cbn [s_tbl set_tbl]. apply fold_upsert_in; assumption.
 Qed.
